@@ -102,6 +102,8 @@ var serviceAnnotationsByName = []annChoice{
 	{"secure-crt-secret", []string{"b/tls1", "a/tls2", "tls2", "a/tls1"}},
 	{"secure-verify-ca-secret", []string{"b/ca", "a/ca", "ca"}},
 	{"auth-secret", []string{"b/auth", "a/auth", "auth"}},
+	{"auth-url", []string{"svc://s1:8080", "svc://s2:8080/check", "http://10.9.9.9:8000/auth", "svc://missing:80", "http://"}},
+	{"auth-external-placement", []string{"frontend", "backend"}},
 }
 
 var globalKeys = []annChoice{
@@ -140,6 +142,7 @@ var globalKeys = []annChoice{
 
 // GenOptions restrict and bias the generator for one profile.
 type GenOptions struct {
+	SvcAnnChance int // a Service gets each of its keys with chance 1/SvcAnnChance (default 5)
 	// key allow-lists; nil = all
 	IngressKeys []string
 	ServiceKeys []string
@@ -192,7 +195,7 @@ type GenOptions struct {
 }
 
 var defaultHosts = []string{"app.local", "api.local", "*.wild.local", ""}
-var defaultPaths = []string{"/", "/app", "/app/", "/app1", "/app/sub", "/App", "/api"}
+var defaultPaths = []string{"/", "/app", "/app/", "/app1", "/app/sub", "/App", "/api", "/ap", "/app/other"}
 
 var defaultWeights = map[string]int{
 	"ing_create": 6, "ing_delete": 4, "ing_update": 14, "ing_ann": 8,
@@ -572,8 +575,12 @@ func svcIndex(ns, name string) int {
 func (g *gen) genService(i int) *api.Service {
 	d := svcDefs[i]
 	ann := map[string]string{}
+	den := 5
+	if g.opt.SvcAnnChance > 0 {
+		den = g.opt.SvcAnnChance
+	}
 	for _, k := range g.svcKeys {
-		if g.chance(1, 5) {
+		if g.chance(1, den) {
 			ann[annPrefix+k.Key] = pickStr(g, k.Values)
 		}
 	}
